@@ -21,3 +21,7 @@ def check(A):
         R.sweep_complete_rule(A, fl, 'C07')
         R.idle_guard_rule(A, fl, 'C07')
     R.monitor_default_rule(A, 'C07')
+    # a PONG that shares a POST body with buffered messages must not be refused with them:
+    # the packet-count gate is exact (rule shared with C02)
+    from . import C02
+    C02.check(A, only_decode=True, prefix='C07')
